@@ -64,6 +64,14 @@ func exec(op string) vlib.Res {
 		if need(4) {
 			return execCachef(f)
 		}
+	case "nsaddr run":
+		if need(3) {
+			return execNsAddr(f)
+		}
+	case "chase run":
+		if need(7) {
+			return execChase(f)
+		}
 	case "relay run":
 		if need(4) {
 			return execRelay(f)
@@ -480,6 +488,88 @@ func genRelay(r *vlib.R, emit func(string)) {
 	emit(fmt.Sprintf("relay run %s %s", zone, strings.ReplaceAll(listOrDash(as), ",", ";")))
 }
 
+func genNsAddr(r *vlib.R, local []string, emit func(string)) {
+	n := r.Intn(6)
+	var rs []string
+	for i := 0; i < n; i++ {
+		rs = append(rs, fmt.Sprintf("%s/%s/%s", related(r, "evil.test."), vlib.Pick(r, []string{"A", "A", "AAAA", "AAAA", "X"}), genAddrHex(r, local)))
+	}
+	emit("nsaddr run " + strings.ReplaceAll(listOrDash(rs), ",", ";"))
+}
+
+// genChase: an outer answer and a script for the sub-pipeline: chains of 0..12 aliases, loops,
+// targets that fail / hit the work limit / answer NXDOMAIN, SERVFAIL, NODATA, or carry the final record.
+func genChase(r *vlib.R, emit func(string)) {
+	qname := under(vlib.Pick(r, someLabels), vlib.Pick(r, baseZones[1:]))
+	qtype := vlib.Pick(r, []int{1, 1, 1, 28, 16, 5, 43, 15})
+	rcode := vlib.Pick(r, []int{0, 0, 0, 0, 0, 0, 0, 3, 2})
+	names := []string{qname}
+	for i := 0; i < 20; i++ {
+		names = append(names, fmt.Sprintf("t%d.%s", i, vlib.Pick(r, baseZones[1:])))
+	}
+	other := func() int { return vlib.Pick(r, []int{1, 28, 16, 46, 39}) }
+	var ans []string
+	chain := vlib.Pick(r, []int{0, 1, 1, 1, 1, 2, 2, 3}) // aliases in the outer answer
+	cur := qname
+	idx := 1
+	for i := 0; i < chain; i++ {
+		tgt := names[idx]
+		idx++
+		if r.Chance(1, 15) {
+			tgt = qname // self loop
+		}
+		ans = append(ans, fmt.Sprintf("%s/5/%s", cur, tgt))
+		cur = tgt
+	}
+	if r.Chance(1, 5) {
+		ans = append(ans, fmt.Sprintf("%s/%d", cur, vlib.Pick(r, []int{qtype, qtype, other()})))
+	}
+	if r.Chance(1, 8) && len(ans) > 0 {
+		// a record of the query type in front of the aliases
+		ans = append([]string{fmt.Sprintf("%s/%d", "www.victim.test.", qtype)}, ans...)
+	}
+	var script []string
+	hops := r.Intn(16)
+	long := r.Chance(1, 2) // nothing but aliases: the depth bound and the loop check decide
+	for h := 0; h < hops && idx < len(names)-1; h++ {
+		var val string
+		k := r.Intn(30)
+		if long {
+			k = 29
+		}
+		switch {
+		case k == 0:
+			val = "L"
+		case k == 1:
+			val = "F"
+		case k == 2:
+			val = fmt.Sprintf("R%d:%d:", vlib.Pick(r, []int{3, 2, 5}), r.Intn(2))
+		case k == 3:
+			val = fmt.Sprintf("R0:%d:", r.Intn(2)) // NODATA / empty
+		case k < 6:
+			// the final record (perhaps of another type) with or without a further alias
+			val = fmt.Sprintf("R0:0:%s/%d", cur, vlib.Pick(r, []int{qtype, qtype, other()}))
+		default:
+			nxt := names[idx]
+			idx++
+			if r.Chance(1, 12) {
+				nxt = vlib.Pick(r, names[:idx]) // loop back
+			}
+			recs := fmt.Sprintf("%s/5/%s", cur, nxt)
+			if r.Chance(1, 4) {
+				recs += fmt.Sprintf("+%s/%d", nxt, vlib.Pick(r, []int{qtype, other()}))
+			}
+			val = fmt.Sprintf("R%d:0:%s", vlib.Pick(r, []int{0, 0, 0, 0, 0, 3}), recs)
+			script = append(script, cur+"="+val)
+			cur = nxt
+			continue
+		}
+		script = append(script, cur+"="+val)
+		break
+	}
+	emit(fmt.Sprintf("chase run %s %d %d %s %s", qname, qtype, rcode, strings.ReplaceAll(listOrDash(ans), ",", ";"), strings.ReplaceAll(listOrDash(script), ",", ";")))
+}
+
 func localHex() []string {
 	var out []string
 	for _, ip := range resolver.VerifC07LocalIPs() {
@@ -595,7 +685,7 @@ func gen(r *vlib.R, n int, tier string, emit func(string)) {
 	genL3(r, tier, emit)
 	emit("glue new " + listOrDash(local))
 	for n > 0 {
-		switch k := r.Intn(20); {
+		switch k := r.Intn(24); {
 		case k < 4:
 			z := vlib.Pick(r, baseZones)
 			a, b := related(r, z), related(r, z)
@@ -632,7 +722,13 @@ func gen(r *vlib.R, n int, tier string, emit func(string)) {
 		case k < 18:
 			genCachef(r, emit)
 		case k < 19:
-			genRelay(r, emit)
+			if r.Bool() {
+				genRelay(r, emit)
+			} else {
+				genNsAddr(r, local, emit)
+			}
+		case k < 23:
+			genChase(r, emit)
 		default:
 			emit(fmt.Sprintf("clr run %s %s %d %d", vlib.B(r.Bool()), vlib.Pick(r, []string{"-", "-", "f", "t"}), r.Intn(3), r.Intn(3)))
 			emit("glue usable " + genAddrHex(r, local))
